@@ -402,6 +402,13 @@ func (c *container) recvAckReply(name string) error {
 }
 func (c *container) recvReply() (reply, unixsocket.Msg, error) {
 	verifPoint("host.recvReply")
+	// a transport error takes priority over whatever is still queued: a reply left
+	// behind by an earlier call must never be taken for the answer of this one
+	select {
+	case <-c.done:
+		return reply{}, unixsocket.Msg{}, c.err
+	default:
+	}
 	select {
 	case <-c.done:
 		return reply{}, unixsocket.Msg{}, c.err
@@ -413,6 +420,12 @@ func (c *container) recvReply() (reply, unixsocket.Msg, error) {
 
 func (c *container) sendCmd(cmd cmd, msg unixsocket.Msg) error {
 	verifPoint("host.sendCmd")
+	// do not queue a command once the transport is known to be broken
+	select {
+	case <-c.done:
+		return c.err
+	default:
+	}
 	select {
 	case <-c.done:
 		return c.err
